@@ -134,7 +134,7 @@ def small_cycles(stop: int, start: int, k: int) -> str:
     return "ok"
 
 
-REG.add("A/small-cycles-unrolled", small_cycles, pre=lambda stop, start, k: 0 <= start and start + 3 <= stop <= 8 and 0 <= k <= 18, timeout=300,
+REG.add("A/small-cycles-unrolled", small_cycles, pre=lambda stop, start, k: 1 <= start and start + 3 <= stop <= 9 and 0 <= k <= 18, timeout=300,
         desc="the real generator unrolled: start + 3 <= stop <= 8 (periods >= 3, so that an off-by-one in the wrap that keeps the driver's 65535-counter correct is not flagged), k <= 18 draws, all symbolic", funcs=F[:1])
 
 # ------------------------------------------------------------------ driver scenarios across the wrap
